@@ -13,7 +13,10 @@
    characterised on the tree (Proofs/Limits.v): `need_prog p` is the number of operand slots the program needs (live
    variables plus the temporaries of its deepest expression, computed structurally), `nest_prog p` its block nesting;
    within 1024 slots and 16 blocks the agreement is EXACT (C01_language_within_limits, no escape clause), and a limit
-   error can only occur when the tree exceeds that limit (C01_language_characterised). *)
+   error can only occur when the tree exceeds that limit (C01_language_characterised).
+   The `_input` forms (Proofs/SizeBounds.v) have as ONLY hypotheses that the source is shorter than 2^56 bytes and that
+   it is accepted: the number of constants is at most the number of tokens, the code at most 40 bytes per token, the
+   lexer emits at most one token per byte plus two, and the parser never gives up (ParserTotal). *)
 From Coq Require Import ZArith.
 From RecordUpdate Require Import RecordSet.
 Import RecordSetNotations.
@@ -21,6 +24,7 @@ From BCL Require Import Model.Vm Spec.Sem Proofs.VmSpecProofs.
 Open Scope N_scope.
 From BCL Require Import Model.Api Model.Compile Spec.Syntax Spec.AstSem Proofs.ParserInvProofs Proofs.T2Expr Proofs.T2Proofs Proofs.T1Expr Proofs.T1Proofs Proofs.Language.
 From BCL Require Import Proofs.VerifyFrag Proofs.CompileVerifies Proofs.Limits.
+From BCL Require Import Proofs.ParserTotal Proofs.SizeBounds.
 
 (* every binary operator on every pair of operand values: the VM computes Sem.binop *)
 Theorem C01_binop_spec : forall p instr o a b stk m,
@@ -134,6 +138,28 @@ Theorem C01_tree_exact_within_limits : forall (p : list stmt) (name : bytes) (po
   res_match (fst (run_program p)) (rr_res rr) /\ obs_match (snd (run_program p)) rr.
 Proof. first [exact Limits.T1_exact_within_limits | apply Limits.T1_exact_within_limits]. Qed.
 Print Assumptions C01_tree_exact_within_limits.
+
+Theorem C01_language_input : forall name src,
+  let pr := parse_whole name src in
+  let ts := fst (lex [src]) in
+  nlen src < 2^56 -> pr_ok pr = true ->
+  exists p, ast_program ts = Some p /\
+    let rr := execute (pr_prog pr) false false in
+    limit_res (rr_res rr) \/
+    (res_match (fst (run_program p)) (rr_res rr) /\ obs_match (snd (run_program p)) rr).
+Proof. first [exact SizeBounds.bcl_language_input | apply SizeBounds.bcl_language_input]. Qed.
+Print Assumptions C01_language_input.
+
+Theorem C01_language_within_limits_input : forall name src,
+  let pr := parse_whole name src in
+  let ts := fst (lex [src]) in
+  nlen src < 2^56 -> pr_ok pr = true ->
+  exists p, ast_program ts = Some p /\
+    (within_limits p ->
+     let rr := execute (pr_prog pr) false false in
+     res_match (fst (run_program p)) (rr_res rr) /\ obs_match (snd (run_program p)) rr).
+Proof. first [exact SizeBounds.bcl_language_within_limits_input | apply SizeBounds.bcl_language_within_limits_input]. Qed.
+Print Assumptions C01_language_within_limits_input.
 
 (* non-vacuity: a program mixing all operator levels and all value kinds *)
 From BCL Require Import Model.Api.
